@@ -36,7 +36,8 @@ def mkServer (ws : List String) : World :=
   let filter := match argOf ws "filter" "" with
     | "none" => 1 | "even" => 2 | _ => 0
   { opts := { flavour := if argOf ws "flavour" "tcp" == "ssl" then .ssl else .tcp, policy := policy,
-              chunkh := argOf ws "chunkh" "0" == "1", conth := argOf ws "conth" "0" == "1",
+              chunkh := argOf ws "chunkh" "0" == "1", conth := argOf ws "conth" "0" == "1" || argOf ws "conth" "0" == "2",
+              contReject := argOf ws "conth" "0" == "2",
               invh := argOf ws "invh" "0" == "1", senth := argOf ws "senth" "0" == "1",
               trace := argOf ws "trace" "0" == "1", autodisc := argOf ws "autodisc" "0" == "1",
               filter := filter, chunkedResp := argOf ws "resp" "fixed" == "chunked", cfg := cfg },
